@@ -888,16 +888,18 @@ type BGP4MPMessage struct {
 // marshallingOptions returns the options the embedded BGP message is encoded
 // with. The *_ADDPATH subtypes (RFC 8050) hold a message whose NLRI carry path
 // identifiers; the record does not tell for which families ADD-PATH was
-// negotiated, so every family is taken to be ADD-PATH encoded.
+// negotiated, so every family is taken to be ADD-PATH encoded. The subtypes
+// without AS4 hold a message of a session without the 4-octet AS capability:
+// its AS_PATH carries 2-octet AS numbers (RFC 6396 4.4.2).
 func (m *BGP4MPMessage) marshallingOptions() []*bgp.MarshallingOption {
-	if !m.isAddPath {
-		return nil
+	opt := &bgp.MarshallingOption{Use2ByteAS: !m.isAS4}
+	if m.isAddPath {
+		opt.AddPath = make(map[bgp.Family]bgp.BGPAddPathMode, len(bgp.AddressFamilyNameMap))
+		for f := range bgp.AddressFamilyNameMap {
+			opt.AddPath[f] = bgp.BGP_ADD_PATH_BOTH
+		}
 	}
-	addPath := make(map[bgp.Family]bgp.BGPAddPathMode, len(bgp.AddressFamilyNameMap))
-	for f := range bgp.AddressFamilyNameMap {
-		addPath[f] = bgp.BGP_ADD_PATH_BOTH
-	}
-	return []*bgp.MarshallingOption{{AddPath: addPath}}
+	return []*bgp.MarshallingOption{opt}
 }
 
 func parseBGP4MPMessage(hdr *BGP4MPHeader, isLocal bool, isAddPath bool, data []byte) (*BGP4MPMessage, error) {
